@@ -369,7 +369,11 @@ class _InMemoryBackend(backend.Backend):
     """Feedback callback for a trial."""
     reward = trial.get_reward_for_feedback(self._metrics_to_optimize)
     if reward is not None:
-      self._algorithm.feedback(dna, reward)
+      # NOTE: `DNAGenerator.propose/feedback` update their bookkeeping without
+      # synchronization. Proposals are already serialized by the study lock
+      # (see `create_trial`), so we serialize feedbacks with the same lock.
+      with self._study._lock:  # pylint: disable=protected-access
+        self._algorithm.feedback(dna, reward)
 
   def _should_stop_early(self, trial: Trial) -> bool:
     if self._early_stopping_policy is not None:
